@@ -55,6 +55,24 @@ def decode (src : Buf) : Nat → Nat → List Nat → Option (List Nat)
           if dist = 0 ∨ dist > out.length then none else
           decode src fuel s2 (copyMatch dist (ml + 4) out)
 
+/-- the number of literals of the last sequence (the format asks encoders for at least five: "the last 5 bytes of input are always
+literals") -/
+def finalLits (src : Buf) : Nat → Nat → Option Nat
+  | 0, _ => none
+  | fuel + 1, s =>
+    match src[s]? with
+    | none => none
+    | some token =>
+      match len src (s + 1) (token >>> 4) with
+      | none => none
+      | some (s1, ll) =>
+        if s1 + ll > src.size then none else
+        if s1 + ll = src.size then some ll else
+        if s1 + ll + 2 > src.size then none else
+        match len src (s1 + ll + 2) (token &&& 0xf) with
+        | none => none
+        | some (s2, _) => finalLits src fuel s2
+
 /-- a whole block -/
 def decompress (src : Buf) : Option (List Nat) := decode src src.size 0 []
 
